@@ -125,7 +125,7 @@ impl<'a> MtHelpers<'a> {
                 use super::*;
 
                 pub trait #trait_name <MtApp, #custom_msg > #where_clause {
-                    type #error_type: std::fmt::Debug + std::fmt::Display + Send + Sync + 'static;
+                    type #error_type: From< #sylvia ::cw_std::StdError> + std::fmt::Debug + std::fmt::Display + Send + Sync + 'static;
                     #(#associated_types_declaration)*
 
                     #(#query_methods_declarations)*
@@ -135,7 +135,7 @@ impl<'a> MtHelpers<'a> {
 
                 impl<BankT, ApiT, StorageT, CustomT, WasmT, StakingT, DistrT, IbcT, GovT, #custom_msg, ContractT: super:: #interface_name > #trait_name < #mt_app, #custom_msg > for #sylvia ::multitest::Proxy<'_, #mt_app, ContractT >
                 where
-                    ContractT:: #error_type : std::fmt::Debug + std::fmt::Display + Send + Sync + 'static,
+                    ContractT:: #error_type : From< #sylvia ::cw_std::StdError> + std::fmt::Debug + std::fmt::Display + Send + Sync + 'static,
                     #custom_msg: #sylvia ::types::CustomMsg + 'static,
                     CustomT: #sylvia ::cw_multi_test::Module,
                     WasmT: #sylvia ::cw_multi_test::Wasm<CustomT::ExecT, CustomT::QueryT>,
@@ -231,7 +231,7 @@ impl EmitMethods for MsgVariant<'_> {
                     (*self.app)
                         .app_mut()
                         .wasm_sudo(self.contract_addr.clone(), &msg)
-                        .map_err(|err| err.downcast().unwrap())
+                        .map_err( #sylvia ::multitest::downcast_error::< #error_type >)
                 }
             },
             MsgType::Migrate => quote! {
